@@ -463,3 +463,108 @@ ITEMS += [
                        r'fn deserialize_identifier(\1self, visitor: Vis) -> Result<VisVal, Error>', 1, 'R9')],
         ensures=[('C05:a_field_or_variant_name_is_read_exactly_like_a_borrowed_string', 'r == vis_as_str(visitor, old(self.ev).rest(), self.cfg)')]),
 ]
+# ---- span-carrying values (C16): which two locations a Spanned<T> gets ----
+ITEMS += [
+    dict(src='src/de/spanned_deser.rs', path='fn deserialize_yaml_spanned', props=['C16', 'C05', 'C01'],
+         pre_rewrites=[(r"fn deserialize_yaml_spanned<'de, V>\(\s*de: Deserializer<'de, '_>,\s*visitor: V,\s*\) -> Result<V::Value, Error>\s*where\s*V: Visitor<'de>,",
+                        "fn deserialize_yaml_spanned<'de, 'e>(de: YamlDeserializer<'de, 'e>, visitor: Vis) -> Result<VisVal, Error>", 1, 'R9')],
+         rewrites=[(r'visitor\.visit_newtype_struct\(SpannedDeser \{\s*de,\s*referenced,\s*defined,\s*state: 0,\s*\}\)',
+                    'visit_spanned(visitor, de, referenced, defined)', 1, 'R8')],
+         proofs=[dict(at='start', ghost=True, text='let ghost rest0 = de.ev.rest();'),
+                 dict(before='visit_spanned(visitor, de, referenced, defined)', label='C16:a_span_carrying_value_records_the_use_site_and_the_definition_site_of_the_node_it_is_about_to_read',
+                      text='''assert(de.ev.rest() == rest0);
+                              assert(rest0.len() > 0 ==> defined == rest0[0].spec_location() && referenced == spec_use_site(de.ev.use_site_override(), rest0[0]));''')],
+         ensures=[('C05:the_node_is_left_for_the_wrapped_value', 'true')]),
+]
+SPD = 'src/de/spanned_deser.rs'
+ITEMS += [
+    dict(src=SPD, path='struct SpannedMapAccess',
+         rewrites=[(r"de: Deserializer<'de, 'e>,", "de: YamlDeserializer<'de, 'e>,", 1, 'R9')]),
+    dict(src=SPD, path='impl de::MapAccess for SpannedMapAccess/fn next_key_seed', id='SpannedMapAccess::next_key_seed', impl_header="impl<'de, 'e> SpannedMapAccess<'de, 'e>",
+         props=['C16', 'C01'],
+         rewrites=[(r"fn next_key_seed<K>\(&mut self, seed: K\) -> Result<Option<K::Value>, Error>\s*where\s*K: de::DeserializeSeed<'de>,",
+                    'fn next_key_seed(&mut self, seed: ElemSeed) -> Result<Option<ElemVal>, Error>', 1, 'R9'),
+                   (r'seed\.deserialize\(key\.into_deserializer\(\)\)\.map\(Some\)', 'seed_on_field_name(seed, key)', 1, 'R8+R18')],
+         ensures=[('C16:a_span_carrying_value_has_exactly_the_fields_value_referenced_defined_in_this_order', '''match old(self).state {
+                0u8 => r == field_name_seed_result(seed, "value"@) && final(self).state == 1,
+                1u8 => r == field_name_seed_result(seed, "referenced"@) && final(self).state == 2,
+                2u8 => r == field_name_seed_result(seed, "defined"@) && final(self).state == 3,
+                _ => r == Ok::<Option<ElemVal>, Error>(None) && final(self).state == old(self).state }'''),
+                  ('frame', 'final(self).referenced == old(self).referenced && final(self).defined == old(self).defined && final(self).de.ev.rest() == old(self).de.ev.rest()')],
+         canaries=['C16:a_span_carrying_value_has_exactly_the_fields_value_referenced_defined_in_this_order']),
+    dict(src=SPD, path='impl de::MapAccess for SpannedMapAccess/fn next_value_seed', id='SpannedMapAccess::next_value_seed', impl_header="impl<'de, 'e> SpannedMapAccess<'de, 'e>",
+         props=['C16', 'C05', 'C01'],
+         rewrites=[(r"fn next_value_seed<Vv>\(&mut self, seed: Vv\) -> Result<Vv::Value, Error>\s*where\s*Vv: de::DeserializeSeed<'de>,",
+                    'fn next_value_seed(&mut self, seed: ElemSeed) -> Result<ElemVal, Error>', 1, 'R9'),
+                   (r'seed\.deserialize\(Deserializer::new\(&mut \*self\.de\.ev, self\.de\.cfg\)\)', 'seed_on_wrapped_value(seed, self.de.ev, self.de.cfg)', 1, 'R8'),
+                   (r'seed\.deserialize\(LocationDeser \{\s*location: (self\.\w+),\s*\}\)', r'seed_on_location(seed, \1)', None, 'R8'),
+                   (r'Err\(Error::msg\("invalid Spanned<T> internal state"\)\)', 'Err(error_msg("invalid Spanned<T> internal state"))', 1, 'R8')],
+         ensures=[('C16:the_field_referenced_gets_the_use_site_and_the_field_defined_the_definition_site', '''match old(self).state {
+                2u8 => r == location_seed_result(seed, old(self).referenced),
+                3u8 => r == location_seed_result(seed, old(self).defined),
+                _ => true }'''),
+                  ('C05:the_field_value_is_read_from_the_untouched_cursor', 'old(self).state == 1 ==> r == wrapped_value_seed_result(seed, old(self).de.ev.rest(), old(self).de.cfg)'),
+                  ('frame', 'final(self).state == old(self).state && final(self).referenced == old(self).referenced && final(self).defined == old(self).defined')],
+         canaries=['C16:the_field_referenced_gets_the_use_site_and_the_field_defined_the_definition_site']),
+]
+# the synthetic views of Location { line, column, span } and Span { offset, len, byte_info }: which number is handed out under which name
+def _field_machine(struct, fields, body_field):
+    return dict(src=SPD, path='impl de::MapAccess for %s/fn next_key_seed' % struct, id='%s::next_key_seed' % struct, impl_header='impl %s' % struct,
+         props=['C16', 'C01'],
+         rewrites=[(r"fn next_key_seed<K>\(&mut self, seed: K\) -> Result<Option<K::Value>, Error>\s*where\s*K: de::DeserializeSeed<'de>,",
+                    'fn next_key_seed(&mut self, seed: ElemSeed) -> Result<Option<ElemVal>, Error>', 1, 'R9'),
+                   (r'seed\.deserialize\(key\.into_deserializer\(\)\)\.map\(Some\)', 'seed_on_field_name(seed, key)', 1, 'R8+R18')],
+         ensures=[('C16:the_fields_are_handed_out_under_their_own_names_in_order', '''match old(self).state {
+                0u8 => r == field_name_seed_result(seed, "%s"@) && final(self).state == 1,
+                1u8 => r == field_name_seed_result(seed, "%s"@) && final(self).state == 2,
+                2u8 => r == field_name_seed_result(seed, "%s"@) && final(self).state == 3,
+                _ => r == Ok::<Option<ElemVal>, Error>(None) && final(self).state == old(self).state }''' % fields),
+                  ('frame', 'final(self).%s == old(self).%s' % (body_field, body_field))],
+         canaries=['C16:the_fields_are_handed_out_under_their_own_names_in_order'])
+ITEMS += [
+    dict(src='src/location.rs', path='impl Span/fn raw_offset', props=['C16'], ensures=[('value', 'r == self.offset')]),
+    dict(src='src/location.rs', path='impl Span/fn raw_len', props=['C16'], ensures=[('value', 'r == self.len')]),
+    dict(src='src/location.rs', path='impl Span/fn raw_byte_info', props=['C16'], ensures=[('value', 'r == self.byte_info')]),
+    dict(src=SPD, path='fn span_index_to_u64#1', props=['C16'], rewrites=[(r'crate::location::SpanIndex', 'SpanIndex', 1, 'R6')], ensures=[('value', 'r == v as u64')]),
+    dict(src=SPD, path='struct LocationMapAccess'),
+    _field_machine('LocationMapAccess', ('line', 'column', 'span'), 'location'),
+    dict(src=SPD, path='impl de::MapAccess for LocationMapAccess/fn next_value_seed', id='LocationMapAccess::next_value_seed', impl_header='impl LocationMapAccess',
+         props=['C16', 'C01'],
+         rewrites=[(r"fn next_value_seed<Vv>\(&mut self, seed: Vv\) -> Result<Vv::Value, Error>\s*where\s*Vv: de::DeserializeSeed<'de>,",
+                    'fn next_value_seed(&mut self, seed: ElemSeed) -> Result<ElemVal, Error>', 1, 'R9'),
+                   (r'seed\.deserialize\(self\.location\.(line|column)\.into_deserializer\(\)\)', r'seed_on_u32(seed, self.location.\1)', None, 'R8'),
+                   (r'seed\.deserialize\(SpanDeser \{\s*span: self\.location\.span,\s*\}\)', 'seed_on_span(seed, self.location.span)', 1, 'R8'),
+                   (r'Err\(Error::msg\("invalid Location internal state"\)\)', 'Err(error_msg("invalid Location internal state"))', 1, 'R8')],
+         ensures=[('C16:line_column_and_span_are_each_handed_out_as_themselves', '''match old(self).state {
+                1u8 => r == u32_seed_result(seed, old(self).location.line),
+                2u8 => r == u32_seed_result(seed, old(self).location.column),
+                3u8 => r == span_seed_result(seed, old(self).location.span),
+                _ => true }''')],
+         canaries=['C16:line_column_and_span_are_each_handed_out_as_themselves']),
+    dict(src=SPD, path='struct SpanMapAccess', rewrites=[(r'span: crate::Span,', 'span: Span,', 1, 'R6')]),
+    _field_machine('SpanMapAccess', ('offset', 'len', 'byte_info'), 'span'),
+    dict(src=SPD, path='impl de::MapAccess for SpanMapAccess/fn next_value_seed', id='SpanMapAccess::next_value_seed', impl_header='impl SpanMapAccess',
+         props=['C16', 'C01'],
+         rewrites=[(r"fn next_value_seed<Vv>\(&mut self, seed: Vv\) -> Result<Vv::Value, Error>\s*where\s*Vv: de::DeserializeSeed<'de>,",
+                    'fn next_value_seed(&mut self, seed: ElemSeed) -> Result<ElemVal, Error>', 1, 'R9'),
+                   (r'seed\.deserialize\(v\.into_deserializer\(\)\)', 'seed_on_u64(seed, v)', None, 'R8'),
+                   (r'seed\.deserialize\(ByteInfoTupleDeser\(self\.span\.raw_byte_info\(\)\)\)', 'seed_on_byte_info(seed, self.span.raw_byte_info())', 1, 'R8'),
+                   (r'Err\(Error::msg\("invalid Span internal state"\)\)', 'Err(error_msg("invalid Span internal state"))', 1, 'R8')],
+         ensures=[('C16:offset_length_and_byte_information_are_each_handed_out_as_themselves', '''match old(self).state {
+                1u8 => r == u64_seed_result(seed, old(self).span.offset as u64),
+                2u8 => r == u64_seed_result(seed, old(self).span.len as u64),
+                3u8 => r == byte_info_seed_result(seed, old(self).span.byte_info),
+                _ => true }''')],
+         canaries=['C16:offset_length_and_byte_information_are_each_handed_out_as_themselves']),
+    dict(src=SPD, path='struct ByteInfoSeqAccess', rewrites=[(r'crate::location::SpanIndex', 'SpanIndex', None, 'R6')]),
+    dict(src=SPD, path='impl de::SeqAccess for ByteInfoSeqAccess/fn next_element_seed', id='ByteInfoSeqAccess::next_element_seed', impl_header='impl ByteInfoSeqAccess',
+         props=['C16', 'C01'],
+         rewrites=[(r"fn next_element_seed<T>\(&mut self, seed: T\) -> Result<Option<T::Value>, Self::Error>\s*where\s*T: de::DeserializeSeed<'de>,",
+                    'fn next_element_seed(&mut self, seed: ElemSeed) -> Result<Option<ElemVal>, Error>', 1, 'R9'),
+                   (r'seed\.deserialize\(v\.into_deserializer\(\)\)\.map\(Some\)', 'seed_on_u64_some(seed, v)', None, 'R8+R18')],
+         ensures=[('C16:the_byte_offset_comes_first_then_the_byte_length', '''match old(self).index {
+                0u8 => r == u64_some_seed_result(seed, old(self).byte_info.0 as u64) && final(self).index == 1,
+                1u8 => r == u64_some_seed_result(seed, old(self).byte_info.1 as u64) && final(self).index == 2,
+                _ => r == Ok::<Option<ElemVal>, Error>(None) && final(self).index == old(self).index }''')],
+         canaries=['C16:the_byte_offset_comes_first_then_the_byte_length']),
+]
